@@ -20,7 +20,8 @@ MANT = [F(1), F(3, 2), F(999999, 100000), F(10000005, 10000000),
         F(49999995, 10000000), F(1, 3), F(2, 7)]
 EXPS = list(range(-7, 7))
 BAD_TERM = ['i:0', 'i:-1', 'D:0.0000001', 'D:0.00000099', 's:abc', 'f:inf',
-            'f:nan', 'N:None', 'D:-0.5', 'F:-1/3', 'f:-0.0']
+            'f:nan', 'N:None', 'D:-0.5', 'F:-1/3', 'f:-0.0', 'D:0', 'D:0.00',
+            'F:0/1', 's:0']
 HALF = F(1, 2 * 10 ** 6)
 MIN_TERM = F(1, 10 ** 6)
 
@@ -36,6 +37,9 @@ def money():
 
 def cur(code):
     return money().get_unit_by_symbol(code)
+
+
+_cur = cur
 
 
 def spell(x, kind):
@@ -129,9 +133,15 @@ def normal_form(r, true_rate, what, tag):
 
 
 @guarded('C09')
-def run_construct(uc, mult, tc, term, st=None):
-    """mult, term: [kind, 'n/d'] or a code from BAD_*"""
+def run_construct(uc, mult, tc, term, st=None, spell_cur='oo'):
+    """mult, term: [kind, 'n/d'] or a code from BAD_*; spell_cur: how the two
+    currencies are given, o = Currency object, c = ISO code string"""
     from quantity.money import ExchangeRate
+
+    def cur(code, which=[0]):
+        i = which[0] % 2
+        which[0] += 1
+        return _cur(code) if spell_cur[i] == 'o' else code
     bad = False
     if isinstance(mult, str):
         mobj = None if mult == 'N:None' else O.dec(mult)
@@ -169,7 +179,8 @@ def run_construct(uc, mult, tc, term, st=None):
             if st is not None:
                 st.outcomes['rejected'] += 1
             return []
-        return [('C09:reject', f"{what}: expected rejection, got "
+        return [('C09:reject:' + (type(err).__name__ if err else 'accepted'),
+                 f"{what}: expected rejection with ValueError/TypeError, got "
                  f"{type(err).__name__ if err else repr(r)}")]
     if err is not None:
         return [('C09:construct:raises', f"{what} raised "
@@ -282,14 +293,19 @@ def part_construct(p, kinds_m, kinds_t, exps):
                         for kt in kinds_t:
                             terms.append([kt, str(mant * F(10) ** e)])
                 terms += BAD_TERM
-                for term in terms:
-                    st.paths += 1
-                    key = (uc, tc, str(mult), str(term))
-                    st.state(key, nontrivial=not isinstance(term, str)
-                             and not isinstance(mult, str) and uc != tc)
-                    for sig, msg in run_construct(uc, mult, tc, term, st):
-                        st.violation(sig, msg, {'construct': [uc, mult, tc,
-                                                              term]})
+                for ti, term in enumerate(terms):
+                    spells = ['oo']
+                    if uc == tc or ti % 97 == 0:
+                        spells = ['oo', 'oc', 'co', 'cc']
+                    for sp in spells:
+                        st.paths += 1
+                        key = (uc, tc, str(mult), str(term))
+                        st.state(key, nontrivial=not isinstance(term, str)
+                                 and not isinstance(mult, str) and uc != tc)
+                        for sig, msg in run_construct(uc, mult, tc, term, st,
+                                                      sp):
+                            st.violation(sig, msg, {'construct': [
+                                uc, mult, tc, term, None, sp]})
     return st
 
 
